@@ -490,6 +490,155 @@ fn op_decode_track(a: &[&str]) -> Res {
     Ok(vec![r[0].clone(), m.to_string()])
 }
 
+
+// ---------- a whole session in one process (C20): the customer value is kept in memory across steps, and is
+// stored (serialised) and restored (deserialised) before the steps listed in `store_at`; a wrong reply is fed
+// before the honest one at the steps listed in `fault_at`. Customer and merchant use separate seeded RNGs so that
+// storing / restoring cannot perturb the randomness. Returns every message and result in order.
+enum Cust {
+    Requested(Requested),
+    Inactive(Inactive),
+    Ready(Ready),
+    Started(Started),
+    Locked(Locked),
+}
+fn restore(c: Cust) -> Result<Cust, String> {
+    Ok(match c {
+        Cust::Requested(s) => Cust::Requested(de(&bincode::serialize(&s).unwrap())?),
+        Cust::Inactive(s) => Cust::Inactive(de(&bincode::serialize(&s).unwrap())?),
+        Cust::Ready(s) => Cust::Ready(de(&bincode::serialize(&s).unwrap())?),
+        Cust::Started(s) => Cust::Started(de(&bincode::serialize(&s).unwrap())?),
+        Cust::Locked(s) => Cust::Locked(de(&bincode::serialize(&s).unwrap())?),
+    })
+}
+fn cust_bytes(c: &Cust) -> String {
+    match c {
+        Cust::Requested(s) => ser(s),
+        Cust::Inactive(s) => ser(s),
+        Cust::Ready(s) => ser(s),
+        Cust::Started(s) => ser(s),
+        Cust::Locked(s) => ser(s),
+    }
+}
+fn csv_usize(s: &str) -> Vec<usize> {
+    if s == "-" { return vec![]; }
+    s.split(',').filter_map(|x| x.parse().ok()).collect()
+}
+fn op_session(a: &[&str]) -> Res {
+    use rand::SeedableRng;
+    let m = mcfg(arg(a, 0)?)?;
+    let cfg = arg_de::<customer::Config>(a, 1)?;
+    let cid = cid_of(&arg_bytes(a, 2)?)?;
+    let cb = CustomerBalance::try_new(u64_of(arg(a, 3)?)?).map_err(|_| "cb")?;
+    let mb = MerchantBalance::try_new(u64_of(arg(a, 4)?)?).map_err(|_| "mb")?;
+    let ctx = ctx_of(&arg_bytes(a, 5)?);
+    let amounts: Vec<&str> = if arg(a, 6)? == "-" { vec![] } else { arg(a, 6)?.split(',').collect() };
+    let store_at = csv_usize(arg(a, 7)?);
+    let fault_at = csv_usize(arg(a, 8)?);
+    let mut crng = rand::rngs::StdRng::seed_from_u64(u64_of(arg(a, 9)?)?);
+    let mut mrng = rand::rngs::StdRng::seed_from_u64(u64_of(arg(a, 10)?)?);
+    // a well-formed but wrong reply
+    let g = G1Affine::generator().to_compressed();
+    let mut wrong = Vec::new();
+    wrong.extend_from_slice(&g);
+    wrong.extend_from_slice(&g);
+    let mut out: Vec<String> = Vec::new();
+    let mut step = 0usize;
+    macro_rules! maybe_restore {
+        ($c:expr) => {{
+            let mut c = $c;
+            if store_at.contains(&step) {
+                c = restore(c)?;
+                out.push(format!("restored@{}", step));
+            }
+            c
+        }};
+    }
+    let (req, proof) = Requested::new(&mut crng, &cfg, cid, mb, cb, &ctx);
+    out.push(format!("establish_proof:{}", ser(&proof)));
+    let (closing, vbs) = m.initialize(&mut mrng, &cid, cb, mb, proof, &ctx).ok_or("initialize refused")?;
+    out.push(format!("closing:{}", ser(&closing)));
+    let mut c = maybe_restore!(Cust::Requested(req));
+    // step 0: complete
+    let mut req = match c { Cust::Requested(r) => r, _ => return Err("stage".into()) };
+    if fault_at.contains(&step) {
+        req = match req.complete(de::<ClosingSignature>(&wrong)?, &cfg) {
+            Ok(_) => return Err("wrong reply accepted".into()),
+            Err(r) => { out.push("refused".into()); r }
+        };
+        if store_at.contains(&step) { req = de(&bincode::serialize(&req).unwrap())?; }
+    }
+    let inactive = req.complete(closing, &cfg).map_err(|_| "complete refused")?;
+    step += 1;
+    c = maybe_restore!(Cust::Inactive(inactive));
+    let mut inactive = match c { Cust::Inactive(r) => r, _ => return Err("stage".into()) };
+    let token = m.activate(&mut mrng, vbs);
+    out.push(format!("token:{}", ser(&token)));
+    if fault_at.contains(&step) {
+        inactive = match inactive.activate(de::<PayToken>(&wrong)?, &cfg) {
+            Ok(_) => return Err("wrong reply accepted".into()),
+            Err(r) => { out.push("refused".into()); r }
+        };
+    }
+    let mut ready = inactive.activate(token, &cfg).map_err(|_| "activate refused")?;
+    step += 1;
+    for (pi, amt) in amounts.iter().enumerate() {
+        let amount = amount_of(amt)?;
+        let pctx = Context::new(format!("pay{}", pi).as_bytes());
+        c = maybe_restore!(Cust::Ready(ready));
+        ready = match c { Cust::Ready(r) => r, _ => return Err("stage".into()) };
+        let (started, msg) = match ready.start(&mut crng, amount, &pctx, &cfg) {
+            Ok(x) => x,
+            Err((r, e)) => {
+                out.push(format!("start_refused:{}", err_toks(e).join("/")));
+                ready = r;
+                step += 3;
+                continue;
+            }
+        };
+        out.push(format!("nonce:{}", ser(&msg.nonce)));
+        out.push(format!("pay_proof:{}", ser(&msg.pay_proof)));
+        let nonce = msg.nonce;
+        let (unrev, closing) = m.allow_payment(&mut mrng, amount, &nonce, msg.pay_proof, &pctx).ok_or("allow_payment refused")?;
+        out.push(format!("closing:{}", ser(&closing)));
+        step += 1;
+        c = maybe_restore!(Cust::Started(started));
+        let mut started = match c { Cust::Started(r) => r, _ => return Err("stage".into()) };
+        if fault_at.contains(&step) {
+            started = match started.lock(de::<ClosingSignature>(&wrong)?, &cfg) {
+                Ok(_) => return Err("wrong reply accepted".into()),
+                Err(r) => { out.push("refused".into()); r }
+            };
+            if store_at.contains(&step) { started = de(&bincode::serialize(&started).unwrap())?; }
+        }
+        let (locked, lockmsg) = started.lock(closing, &cfg).map_err(|_| "lock refused")?;
+        out.push(format!("lock_message:{}{}", ser(&lockmsg.revocation_pair), ser(&lockmsg.revocation_lock_blinding_factor)));
+        let token = unrev
+            .complete_payment(&mut mrng, &lockmsg.revocation_pair, &lockmsg.revocation_lock_blinding_factor)
+            .map_err(|_| "complete_payment refused")?;
+        out.push(format!("token:{}", ser(&token)));
+        step += 1;
+        c = maybe_restore!(Cust::Locked(locked));
+        let mut locked = match c { Cust::Locked(r) => r, _ => return Err("stage".into()) };
+        if fault_at.contains(&step) {
+            locked = match locked.unlock(de::<PayToken>(&wrong)?, &cfg) {
+                Ok(_) => return Err("wrong reply accepted".into()),
+                Err(r) => { out.push("refused".into()); r }
+            };
+        }
+        ready = locked.unlock(token, &cfg).map_err(|_| "unlock refused")?;
+        step += 1;
+    }
+    let fin = Cust::Ready(ready);
+    out.push(format!("final_state:{}", cust_bytes(&fin)));
+    let ready = match fin { Cust::Ready(r) => r, _ => unreachable!() };
+    let cm = ready.close(&mut crng);
+    out.push(format!("closing_message:{}", ser(&cm)));
+    let (sig, st) = cm.into_parts();
+    out.push(format!("close_check:{}", b(verified(m.check_close_signature(sig, &st)))));
+    Ok(out)
+}
+
 pub fn dispatch(op: &str, a: &[&str]) -> Option<Res> {
     Some(match op {
         "m_new" => op_m_new(a),
@@ -518,6 +667,7 @@ pub fn dispatch(op: &str, a: &[&str]) -> Option<Res> {
         "cid_parse" => op_cid_parse(a),
         "ctx_new" => op_ctx_new(a),
         "rand_new" => op_rand_new(a),
+        "session" => op_session(a),
         "decode" => op_decode(a),
         "decode_track" => op_decode_track(a),
         _ => return None,
